@@ -9,6 +9,18 @@ open PyIkev2 PyIkev2.Impl
 
 def strip (l : List (String × Nat × Nat × Bool)) : List (Nat × Nat × Bool) := l.map fun e => e.2
 
+/-- structure number `id` (source order), laid out by the ctypes algorithm from the `_fields_`
+    extracted from the current source, has the offsets, sizes, byte order and total size of the
+    kernel structure `spec` -/
+def layoutMatches (id : Nat) (spec : List (String × Nat × Nat × Bool)) (size : Nat) : Prop :=
+  offsetsN (layoutN id) 0 = strip spec ∧ totalSize (layoutN id) = size
+
+instance (id spec size) : Decidable (layoutMatches id spec size) := by
+  unfold layoutMatches; exact inferInstance
+
+instance (t : FT) (v : Val) : Decidable (ValOk t v) := by
+  cases t <;> cases v <;> unfold ValOk <;> exact inferInstance
+
 /-- tie to the source: the ctypes structures, in source order (the index is what `layoutN` takes) -/
 theorem c14_struct_names_from_source :
     Gen.Layouts.structNames =
@@ -16,22 +28,21 @@ theorem c14_struct_names_from_source :
        "XfrmLifetimeCur", "XfrmUserPolicyInfo", "XfrmUserSaFlush", "XfrmId", "XfrmUserTmpl", "XfrmStats",
        "XfrmUserSaInfo", "XfrmAlgo", "XfrmUserSaId", "XfrmUserAcquire", "XfrmUserExpire"] := by decide
 
-/-- Every ctypes structure of xfrm.py / netlink.py, laid out by the ctypes algorithm from the
-    `_fields_` extracted from the current source, has the offsets, sizes, byte order and total
-    size of its kernel UAPI counterpart (<linux/netlink.h>, <linux/xfrm.h>). -/
+/-- Every ctypes structure of xfrm.py / netlink.py has the layout of its kernel UAPI counterpart
+    (<linux/netlink.h>, <linux/xfrm.h>). -/
 theorem c14_layouts :
-    (offsetsN (layoutN 0) 0 = strip Spec.Uapi.nlmsghdr ∧ totalSize (layoutN 0) = Spec.Uapi.nlmsghdr_size) ∧
-    (offsetsN (layoutN 1) 0 = strip Spec.Uapi.nlmsgerr ∧ totalSize (layoutN 1) = Spec.Uapi.nlmsgerr_size) ∧
-    (offsetsN (layoutN 3) 0 = strip Spec.Uapi.wrap_sel ∧ totalSize (layoutN 3) = Spec.Uapi.wrap_sel_size) ∧
-    (offsetsN (layoutN 4) 0 = strip Spec.Uapi.xfrm_userpolicy_id ∧ totalSize (layoutN 4) = Spec.Uapi.xfrm_userpolicy_id_size) ∧
-    (offsetsN (layoutN 7) 0 = strip Spec.Uapi.wrap_pol ∧ totalSize (layoutN 7) = Spec.Uapi.wrap_pol_size) ∧
-    (offsetsN (layoutN 8) 0 = strip Spec.Uapi.xfrm_usersa_flush ∧ totalSize (layoutN 8) = Spec.Uapi.xfrm_usersa_flush_size) ∧
-    (offsetsN (layoutN 9) 0 = strip Spec.Uapi.wrap_id ∧ totalSize (layoutN 9) = Spec.Uapi.wrap_id_size) ∧
-    (offsetsN (layoutN 10) 0 = strip Spec.Uapi.xfrm_user_tmpl ∧ totalSize (layoutN 10) = Spec.Uapi.xfrm_user_tmpl_size) ∧
-    (offsetsN (layoutN 12) 0 = strip Spec.Uapi.wrap_sa ∧ totalSize (layoutN 12) = Spec.Uapi.wrap_sa_size) ∧
-    (offsetsN (layoutN 14) 0 = strip Spec.Uapi.xfrm_usersa_id ∧ totalSize (layoutN 14) = Spec.Uapi.xfrm_usersa_id_size) ∧
-    (offsetsN (layoutN 15) 0 = strip Spec.Uapi.xfrm_user_acquire ∧ totalSize (layoutN 15) = Spec.Uapi.xfrm_user_acquire_size) ∧
-    (offsetsN (layoutN 16) 0 = strip Spec.Uapi.xfrm_user_expire ∧ totalSize (layoutN 16) = Spec.Uapi.xfrm_user_expire_size) := by
+    layoutMatches 0 Spec.Uapi.nlmsghdr Spec.Uapi.nlmsghdr_size ∧
+    layoutMatches 1 Spec.Uapi.nlmsgerr Spec.Uapi.nlmsgerr_size ∧
+    layoutMatches 3 Spec.Uapi.wrap_sel Spec.Uapi.wrap_sel_size ∧
+    layoutMatches 4 Spec.Uapi.xfrm_userpolicy_id Spec.Uapi.xfrm_userpolicy_id_size ∧
+    layoutMatches 7 Spec.Uapi.wrap_pol Spec.Uapi.wrap_pol_size ∧
+    layoutMatches 8 Spec.Uapi.xfrm_usersa_flush Spec.Uapi.xfrm_usersa_flush_size ∧
+    layoutMatches 9 Spec.Uapi.wrap_id Spec.Uapi.wrap_id_size ∧
+    layoutMatches 10 Spec.Uapi.xfrm_user_tmpl Spec.Uapi.xfrm_user_tmpl_size ∧
+    layoutMatches 12 Spec.Uapi.wrap_sa Spec.Uapi.wrap_sa_size ∧
+    layoutMatches 14 Spec.Uapi.xfrm_usersa_id Spec.Uapi.xfrm_usersa_id_size ∧
+    layoutMatches 15 Spec.Uapi.xfrm_user_acquire Spec.Uapi.xfrm_user_acquire_size ∧
+    layoutMatches 16 Spec.Uapi.xfrm_user_expire Spec.Uapi.xfrm_user_expire_size := by
   decide +kernel
 
 /-- `xfrm_algo` is sent with a fixed 64-octet key tail: name and key length sit at the kernel's
@@ -78,11 +89,37 @@ theorem c14_flows_from_source :
        ("Xfrm.flush_policies", [("XfrmUserSaFlush", ["proto"])]),
        ("Xfrm.flush_sas", [("XfrmUserSaFlush", ["proto"])])] := by decide
 
-/-- reply handling: an error code makes the request fail, an ack (code 0) or NLMSG_DONE succeed -/
-theorem c14_reply_outcome (seq pid code : Nat) (hc : code < 4294967296) (hs : seq < 4294967296) (hp : pid < 4294967296) :
-    let ack := encFields [(.int 4 false, .n 36), (.int 2 false, .n 2), (.int 2 false, .n 0), (.int 4 false, .n seq),
-      (.int 4 false, .n pid), (.int 4 false, .n code)] ++ List.replicate 16 0
-    True := trivial
+/-- every field of a request structure decodes to the value the builder put in (zero when the
+    builder left it unset), for every layout and every value assignment that fits the fields,
+    whatever follows the structure in the message (attributes, next message) -/
+theorem c14_struct_decodes (layout : List (String × FT)) (vals : List (String × Val))
+    (h : ∀ p ∈ fill layout vals, ValOk p.1 p.2) (tail : Bytes) :
+    decFields (layout.map (·.2)) (encFields (fill layout vals) ++ tail) =
+      layout.map (fun e => (lookupPath vals e.1).getD (zeroVal e.2)) := by
+  have h1 : (fill layout vals).map (·.1) = layout.map (·.2) := by simp [fill]
+  have h2 : (fill layout vals).map (·.2) = layout.map (fun e => (lookupPath vals e.1).getD (zeroVal e.2)) := by
+    simp [fill]
+  rw [← h1, decFields_encFields _ h tail, h2]
+
+/-- reply handling: an NLMSG_ERROR reply carrying a non-zero code makes the request fail -/
+theorem c14_reply_error (fuel : Nat) (data : Bytes) (h0 : data.length ≠ 0)
+    (ht : getN (parseStruct "NetlinkHeader" data) "type" = constOf "NLMSG_ERROR")
+    (he : getN (parseStruct "NetlinkErrorMsg" (data.drop 16)) "error" ≠ 0) :
+    replyOutcome (fuel + 1) data = 1 := by
+  simp [replyOutcome, h0, ht, he]
+
+/-- an ack (NLMSG_ERROR with code 0) that is the whole reply makes the request succeed -/
+theorem c14_reply_ack (fuel : Nat) (data : Bytes)
+    (he : getN (parseStruct "NetlinkErrorMsg" (data.drop 16)) "error" = 0)
+    (hd : constOf "NLMSG_ERROR" ≠ constOf "NLMSG_DONE")
+    (ht : getN (parseStruct "NetlinkHeader" data) "type" = constOf "NLMSG_ERROR")
+    (hl : data.length ≤ getN (parseStruct "NetlinkHeader" data) "length") :
+    replyOutcome (fuel + 2) data = 0 := by
+  by_cases h0 : data.length = 0
+  · simp [replyOutcome, h0]
+  · have : (data.drop (getN (parseStruct "NetlinkHeader" data) "length")).length = 0 := by
+      simp; omega
+    simp [replyOutcome, h0, ht, he, hd, this]
 
 /-! non-vacuity -/
 example : ValOk (.int 2 true) (.n 500) ∧ ValOk (.raw 4) (.b [1, 2, 3, 4]) := by decide
